@@ -2,6 +2,7 @@ package props
 
 import (
 	"fmt"
+	"math"
 	"runtime"
 	"strconv"
 	"sync"
@@ -226,6 +227,120 @@ func c18counter(c *core.Ctx) {
 // included, as first write too) on a fresh register of each representation, judged by
 // the sequential register model - the first-write and zero-value corners that random
 // concurrent workloads over unique non-zero values never visit.
+// c18exactValues: Load and Swap return exactly the value last stored - also when that value
+// is == to the one before it without being the same (+0.0 and -0.0, alone or inside a
+// struct), when it is stored twice, and when its type has fields that cannot be compared.
+func c18exactValues(c *core.Ctx) bool {
+	nz := math.Copysign(0, -1)
+	var f sync2.AtomicValue[float64]
+	type fs struct {
+		X float64
+		N int
+	}
+	var st sync2.AtomicValue[fs]
+	var hist []string
+	for i, v := range []float64{0, nz, nz, 0, 0, nz, 1.5, nz, 0} {
+		f.Store(v)
+		st.Store(fs{v, i})
+		hist = append(hist, fmt.Sprintf("Store(%v)", v))
+		got, sgot := f.Load(), st.Load()
+		if math.Signbit(got) != math.Signbit(v) || got != v || math.Signbit(sgot.X) != math.Signbit(v) || sgot.N != i {
+			c.Violate("seq:Load-not-the-stored-value[float64]", fmt.Sprintf("AtomicValue[float64] / AtomicValue[struct{float64;int}] after %v: Load gives %v / %+v, the value just stored is %v / {%v %d}", hist, got, sgot, v, v, i), nil)
+			return false
+		}
+		if old := f.Swap(v); math.Signbit(old) != math.Signbit(v) {
+			c.Violate("seq:Swap-not-the-stored-value[float64]", fmt.Sprintf("AtomicValue[float64] after %v: Swap returned %v, the register held %v", hist, old, v), nil)
+			return false
+		}
+	}
+	// a struct type with an interface field: values holding slices or funcs cannot be
+	// compared, and Store/Load/Swap never need to
+	type box struct {
+		V any
+		N int
+	}
+	var b sync2.AtomicValue[box]
+	sl := []int{1, 2}
+	if p, pv := core.Catch(func() {
+		for i := 0; i < 3; i++ {
+			b.Store(box{sl, i})
+			b.Store(box{sl, i})
+			if got := b.Load(); got.N != i || len(got.V.([]int)) != 2 {
+				panic(fmt.Sprintf("Load gives %+v after Store of {[1 2] %d}", got, i))
+			}
+			if old := b.Swap(box{func() {}, i}); old.N != i {
+				panic(fmt.Sprintf("Swap returned %+v, the register held {[1 2] %d}", old, i))
+			}
+			b.Store(box{map[int]int{}, i})
+		}
+	}); p {
+		c.Violate("seq:uncomparable-values", fmt.Sprintf("AtomicValue[struct{any;int}] holding slices, funcs and maps, Store/Load/Swap only: %v", pv), nil)
+		return false
+	}
+	c.Count("seq_exact_value_checks", 1)
+	return true
+}
+
+// c18sameValue: after a first Store(1) every goroutine only ever writes the SAME value 1
+// (Store(1), Swap(1), CompareAndSwap(1,1)). An atomic register then holds 1 at every
+// instant, so every CompareAndSwap(1,1) must succeed and every Load and Swap return 1 - a
+// verdict that needs no timing luck: a CompareAndSwap that gives up when somebody re-stored
+// an equal value under it fails here within a few thousand calls.
+func c18sameValue(c *core.Ctx) {
+	r := c.R
+	reg := newReg(r.Intn(4))
+	reg.store(1)
+	ng := r.Range(2, 8)
+	per := r.Range(2000, 20000)
+	if c.Build != "plain" {
+		per = r.Range(500, 4000)
+	}
+	var casFailed, wrongRead atomic.Int64
+	var wg sync.WaitGroup
+	start := make(chan struct{})
+	for g := 0; g < ng; g++ {
+		kind := (g + int(c.Index)) % 3 // storer, swapper, CAS caller: at least one of each kind from 3 goroutines on
+		rr := r.Fork()
+		wg.Add(1)
+		go func() {
+			defer wg.Done()
+			<-start
+			for i := 0; i < per; i++ {
+				switch k := (kind + rr.Intn(2)) % 3; k {
+				case 0:
+					reg.store(1)
+				case 1:
+					if v, wf := reg.swap(1); v != 1 || !wf {
+						wrongRead.Add(1)
+					}
+				case 2:
+					if !reg.cas(1, 1) {
+						casFailed.Add(1)
+					}
+				}
+				if v, wf := reg.load(); v != 1 || !wf {
+					wrongRead.Add(1)
+				}
+			}
+		}()
+	}
+	close(start)
+	if !joinOrDeadlock(c, &wg, "reg:same-value", "goroutines writing one and the same value", nil) {
+		return
+	}
+	c.Count("same_value_rounds", 1)
+	c.Count("same_value_calls", int64(ng*per*2))
+	if n := casFailed.Load(); n != 0 {
+		c.Violate("reg:CompareAndSwap-fails-on-equal-value["+reg.name+"]", fmt.Sprintf("AtomicValue[%s] held the value 1 throughout (every goroutine only ever wrote 1), yet %d of the CompareAndSwap(1,1) calls returned false (%d goroutines, %d calls each)", reg.name, n, ng, per), nil)
+		return
+	}
+	if n := wrongRead.Load(); n != 0 {
+		c.Violate("reg:same-value-read-differs["+reg.name+"]", fmt.Sprintf("AtomicValue[%s]: only the value 1 was ever written, yet %d Load/Swap calls returned something else", reg.name, n), nil)
+		return
+	}
+	c.NonTrivial(core.Mix(c.Seed, uint64(ng), uint64(per)))
+}
+
 func c18seqSweep(c *core.Ctx) {
 	alphabet := []pin{{Op: opLoad}, {Op: opStore, Arg: 0}, {Op: opStore, Arg: 1}, {Op: opStore, Arg: 2}, {Op: opSwap, Arg: 0}, {Op: opSwap, Arg: 1},
 		{Op: opCAS, Arg: 0, Arg2: 1}, {Op: opCAS, Arg: 1, Arg2: 0}, {Op: opCAS, Arg: 1, Arg2: 2}, {Op: opCAS, Arg: 2, Arg2: 2}, {Op: opCAS, Arg: 0, Arg2: 0}}
@@ -296,7 +411,14 @@ func c18seqSweep(c *core.Ctx) {
 
 func c18reg(c *core.Ctx, record bool) {
 	if record && c.Index%100 == 7 {
+		if !c18exactValues(c) {
+			return
+		}
 		c18seqSweep(c)
+		return
+	}
+	if c.Index%10 == 9 {
+		c18sameValue(c)
 		return
 	}
 	if c.Index%5 == 4 {
